@@ -1,6 +1,6 @@
 import Mustache.Model.World
 import Mustache.Driver.World
-import Mustache.Proofs.RowsPackInv
+import Mustache.Proofs.RowsPackOne
 /-!
 # C05 — changes made while locked are isolated, then applied at the outermost unlock in program order
 
@@ -193,11 +193,33 @@ example : (lockedW.unlock cat).2.1 = true ∧ (lockedW.unlock cat).1.isValid e0 
 
 /-! ## packs: the split of a log loses nothing and keeps program order -/
 
+open Mustache.Proofs.Rows (isCreateCmd)
+
+/-- one step of the split: the new command joins the next pack iff it targets the same handle and
+that pack does not start with a creation (a creation always opens a pack) -/
+theorem packs_cons (c : Cmd) (cs : List Cmd) :
+    packs (c :: cs) =
+      match packs cs with
+      | [] => [[c]]
+      | [] :: ps => [c] :: ps
+      | (d :: ds) :: ps =>
+        if c.entity = d.entity ∧ isCreateCmd d = false then (c :: d :: ds) :: ps
+        else [c] :: (d :: ds) :: ps := by
+  rw [packs]
+  cases packs cs with
+  | nil => rfl
+  | cons p ps =>
+    cases p with
+    | nil => rfl
+    | cons d ds =>
+      simp only
+      cases d <;> simp [isCreateCmd]
+
 theorem packs_concat (buf : List Cmd) : (packs buf).flatten = buf := by
   induction buf with
   | nil => rfl
   | cons c cs ih =>
-    unfold packs
+    rw [packs_cons]
     cases hp : packs cs with
     | nil => rw [hp] at ih; simp at ih; simp [← ih]
     | cons p ps =>
@@ -212,7 +234,7 @@ theorem packs_nonempty (buf : List Cmd) : ∀ p ∈ packs buf, p ≠ [] := by
   induction buf with
   | nil => simp [packs]
   | cons c cs ih =>
-    unfold packs
+    rw [packs_cons]
     cases hp : packs cs with
     | nil => simp
     | cons p ps =>
@@ -237,7 +259,7 @@ theorem packs_one_entity (buf : List Cmd) :
   induction buf with
   | nil => simp [packs]
   | cons c cs ih =>
-    unfold packs
+    rw [packs_cons]
     cases hp : packs cs with
     | nil => simp
     | cons p ps =>
@@ -254,11 +276,11 @@ theorem packs_one_entity (buf : List Cmd) :
           · intro x hx y hy
             have hx' : x.entity = d.entity := by
               rcases List.mem_cons.mp hx with rfl | hx
-              · exact hcd
+              · exact hcd.1
               · exact ihp x hx d (by simp)
             have hy' : y.entity = d.entity := by
               rcases List.mem_cons.mp hy with rfl | hy
-              · exact hcd
+              · exact hcd.1
               · exact ihp y hy d (by simp)
             rw [hx', hy']
           · exact ih q (by simp [hq])
@@ -268,19 +290,51 @@ theorem packs_one_entity (buf : List Cmd) :
             simp at hx hy; subst hx hy; rfl
           · exact ih q hq
 
-/-- pack boundaries are exactly the places where the target handle changes: two consecutive packs
-never target the same handle (the split is maximal) -/
+/-- a creation is only ever the FIRST command of its pack ("Create command should be first") -/
+theorem packs_create_first (buf : List Cmd) :
+    ∀ p ∈ packs buf, ∀ c ∈ p.tail, isCreateCmd c = false := by
+  induction buf with
+  | nil => simp [packs]
+  | cons c cs ih =>
+    rw [packs_cons]
+    cases hp : packs cs with
+    | nil => simp
+    | cons p ps =>
+      rw [hp] at ih
+      cases p with
+      | nil => exact absurd rfl (packs_nonempty cs [] (by simp [hp]))
+      | cons d ds =>
+        simp only
+        have ihp := ih (d :: ds) (by simp)
+        split
+        · rename_i hcd
+          intro q hq
+          rcases List.mem_cons.mp hq with rfl | hq
+          · intro x hx
+            simp only [List.tail_cons] at hx
+            rcases List.mem_cons.mp hx with rfl | hx
+            · exact hcd.2
+            · exact ihp x (by simpa using hx)
+          · exact ih q (by simp [hq])
+        · intro q hq
+          rcases List.mem_cons.mp hq with rfl | hq
+          · simp
+          · exact ih q hq
+
+/-- pack boundaries are exactly the places where the target handle changes or a creation starts: of
+two consecutive packs either the targets differ or the second one starts with a creation (the split
+is maximal) -/
 def Maximal : List (List Cmd) → Prop
   | [] => True
   | [_] => True
   | p :: q :: rest =>
-    (∀ c ∈ p, ∀ d ∈ q, c.entity ≠ d.entity) ∧ Maximal (q :: rest)
+    ((∀ c ∈ p, ∀ d ∈ q, c.entity ≠ d.entity) ∨ (q.head?.map isCreateCmd = some true)) ∧ Maximal (q :: rest)
 
 theorem packs_maximal (buf : List Cmd) : Maximal (packs buf) := by
   induction buf with
   | nil => simp [packs, Maximal]
   | cons c cs ih =>
-    unfold packs
+    rw [packs_cons]
     cases hp : packs cs with
     | nil => simp [Maximal]
     | cons p ps =>
@@ -297,18 +351,28 @@ theorem packs_maximal (buf : List Cmd) : Maximal (packs buf) := by
           | nil => simp [Maximal]
           | cons q rest =>
             refine ⟨?_, ih.2⟩
-            intro x hx y hy
-            rcases List.mem_cons.mp hx with rfl | hx
-            · rw [hcd]; exact ih.1 d (by simp) y hy
-            · exact ih.1 x hx y hy
+            rcases ih.1 with h1 | h1
+            · left
+              intro x hx y hy
+              rcases List.mem_cons.mp hx with rfl | hx
+              · rw [hcd.1]; exact h1 d (by simp) y hy
+              · exact h1 x hx y hy
+            · exact Or.inr h1
         · rename_i hcd
           refine ⟨?_, ih⟩
-          intro x hx y hy
-          simp at hx; subst hx
-          rw [hone (d :: ds) (by simp) y hy d (by simp)]
-          exact hcd
+          by_cases hcr : isCreateCmd d = true
+          · right; simp [hcr]
+          · left
+            intro x hx y hy
+            simp at hx; subst hx
+            rw [hone (d :: ds) (by simp) y hy d (by simp)]
+            intro he
+            exact hcd ⟨he, by simpa using hcr⟩
 
 example : (packs lockedW.buffers[1]!).map List.length = [2] := by decide
+/-- same handle, but the creation opens its own pack -/
+example : (packs [Cmd.destroyNow e0, .create e0 [0] Shared.null, .assign e0 0 none]).map List.length = [1, 2] := by
+  decide
 example : (packs [Cmd.assign e0 0 none, .remove e0 0, .destroy ⟨1, 0, 0⟩, .assign e0 1 none]).map List.length
     = [2, 1, 1] := by decide
 
@@ -376,5 +440,82 @@ theorem flush_consumes_all (w : WM) :
   induction w.buffers with
   | nil => rfl
   | cons b bs ih => simp [packs_concat, ih]
+
+/-! ## a recorded command means what it means when issued unlocked -/
+
+/-- `[destroyNow e]`: the pack is exactly the unlocked `destroyNow e` (state AND callbacks) for every
+handle that is invalid (skipped, C09) or located -/
+theorem pack_singleton_eq_unlocked_destroyNow (info : CompId → CompInfo) (w : WM) (t : Nat) (e : Handle)
+    (hl : w.isLocked = false) (h : w.isValid e = false ∨ (w.locOf e).arch.isSome = true) :
+    w.applyPack info [.destroyNow e] = w.destroyNow info t e := by
+  rw [Mustache.Proofs.Rows.applyPack_destroyNow info w e h]
+  simp [WM.destroyNow, hl]
+
+/-- `[remove e c]`: the pack is exactly the unlocked `removeComponent<c>(e)` (state AND callbacks) on a
+valid located entity. Hypotheses named after C13: `hclosed` (the entity's archetype mask is closed:
+`archetype_masks_closed`), `hidem` (closure idempotent: `closure_idempotent_monotone`); `hout`: the
+removal is effective — `c` is not a dependent of a component that stays (`remove_dependent_noop` is
+the other case, where both paths leave the component set alone). -/
+theorem pack_singleton_eq_unlocked_remove (info : CompId → CompInfo) (w : WM) (t : Nat) (e : Handle)
+    (c : CompId) (pi : Nat) (hl : w.isLocked = false) (hv : w.isValid e = true)
+    (hla : (w.locOf e).arch = some pi) (hpi : pi < w.archs.length)
+    (hclosed : closedMask w.deps (w.arch pi).mask = (w.arch pi).mask)
+    (hidem : closedMask w.deps (closedMask w.deps (Mask.erase (w.arch pi).mask c)) =
+      closedMask w.deps (Mask.erase (w.arch pi).mask c))
+    (hout : c ∈ (w.arch pi).mask → c ∉ closedMask w.deps (Mask.erase (w.arch pi).mask c)) :
+    w.applyPack info [.remove e c] = w.removeComp info t e c :=
+  Mustache.Proofs.Rows.applyPack_remove info w t e c pi hl hv hla hpi hclosed hidem hout
+
+/-- `[assign e c v]`, `v` being the value the locked `assign<c>(e, tok)` records: the pack yields the
+state and the callbacks of the unlocked `assign<c>(e, tok)` (which succeeds), for a valid located
+entity that does not have `c` yet. Same C13 hypotheses. -/
+theorem pack_singleton_eq_unlocked_assign (info : CompId → CompInfo) (w : WM) (t : Nat) (e : Handle)
+    (c : CompId) (tok : Nat) (pi : Nat) (hl : w.isLocked = false) (hv : w.isValid e = true)
+    (hla : (w.locOf e).arch = some pi) (hpi : pi < w.archs.length)
+    (hclosed : closedMask w.deps (w.arch pi).mask = (w.arch pi).mask)
+    (hidem : closedMask w.deps (closedMask w.deps (Mask.insert (w.arch pi).mask c)) =
+      closedMask w.deps (Mask.insert (w.arch pi).mask c))
+    (hnew : c ∉ (w.arch pi).mask) :
+    w.applyPack info [.assign e c (Mustache.Proofs.Rows.storedOf info c (some tok))] =
+      ((w.assign info t e c (some tok)).1, (w.assign info t e c (some tok)).2.2) ∧
+    (w.assign info t e c (some tok)).2.1 = .ok :=
+  Mustache.Proofs.Rows.applyPack_assign info w t e c tok pi hl hv hla hpi hclosed hidem hnew
+
+/-- the locked `assign` records exactly that value -/
+theorem locked_assign_records (info : CompId → CompInfo) (w : WM) (t : Nat) (e : Handle) (c : CompId)
+    (tok : Nat) (hl : w.isLocked = true) :
+    (w.assign info t e c (some tok)).1.buffers =
+      w.buffers.set t (w.buffers.getD t [] ++
+        [.assign e c (Mustache.Proofs.Rows.storedOf info c (some tok))]) := by
+  unfold WM.assign
+  simp only [hl, if_true]
+  split <;> rfl
+
+/-- one entity {A}: unlocked assign of C = the singleton pack -/
+def one : WM := (({} : WM).create cat 0 [0] Shared.null).1
+
+example : (one.applyPack cat [.assign e0 2 (some 9)]).1.getComp e0 2 = some (some 9) ∧
+    (one.assign cat 0 e0 2 (some 9)).1.getComp e0 2 = some (some 9) ∧
+    (one.applyPack cat [.destroyNow e0]).1.isValid e0 = false := by decide
+example : one.isLocked = false ∧ one.isValid e0 = true ∧ (one.locOf e0).arch = some 0 ∧
+    closedMask one.deps (one.arch 0).mask = (one.arch 0).mask ∧ (2 : CompId) ∉ (one.arch 0).mask := by decide
+
+/-- observational equality of two model states -/
+def ObsEq (w w' : WM) : Prop :=
+  ∀ (h : Handle) (c : CompId), w'.isValid h = w.isValid h ∧ w'.getComp h c = w.getComp h c ∧
+    w'.hasComp h c = w.hasComp h c
+
+/-- pack fusion: applying a pack of several commands on one entity (final mask, single move) is
+observationally the same as applying its commands one at a time as singleton packs — together with
+the three `pack_singleton_eq_unlocked_*` theorems and `flush_order` this is `flush_eq_sequential`
+(outermost unlock = every recorded command in program order, buffers in index order, each with its
+unlocked meaning, dead targets skipped). Not proved here: an induction over the pack with the
+dependency closure (C13) and the row invariant (C02) as side conditions. -/
+def flush_eq_sequential_statement : Prop :=
+  ∀ (info : CompId → CompInfo) (w : WM) (pack : List Cmd),
+    Mustache.Proofs.Rows.RowsOK w → Mustache.Proofs.Rows.LiveInv w →
+    (∀ c ∈ pack, ∀ d ∈ pack, c.entity = d.entity) →
+    (∀ c ∈ pack, ∀ e m sh, c ≠ .create e m sh) →
+    ObsEq (pack.foldl (fun (acc : WM) c => (acc.applyPack info [c]).1) w) (w.applyPack info pack).1
 
 end Mustache.Props.C05
